@@ -297,6 +297,32 @@ def PyErr_NoMemory(ex):
     return 0
 
 
+def PyErr_Fetch(ex, ptype, pvalue, ptb):
+    """moves the pending exception (if any) into the three out-parameters and clears it"""
+    p = py(ex)
+    tok = 0
+    if p.exc is not None:
+        tok = p.new_opaque('fetched-exception', excname_saved=p.exc)
+    p.exc = None
+    ex.mem.store(ptype, tok, 8)
+    ex.mem.store(pvalue, 0, 8)
+    ex.mem.store(ptb, 0, 8)
+
+
+def PyErr_Restore(ex, t, v, tb):
+    """sets the pending exception from a triple obtained by PyErr_Fetch (NULL clears it)"""
+    p = py(ex)
+    t = simp(t)
+    if is_c(t) and t == 0:
+        p.exc = None
+        return
+    i = p.objs.get(t) if is_c(t) else None
+    if i is not None and 'excname_saved' in i:
+        p.exc = i['excname_saved']
+    else:
+        p.set_exc(t, 'PyErr_Restore')
+
+
 def PyErr_ExceptionMatches(ex, exc):
     p = py(ex)
     if p.exc is None:
@@ -948,6 +974,7 @@ DEFAULT = {
     'PyErr_Occurred': PyErr_Occurred, 'PyErr_Clear': PyErr_Clear, 'PyErr_SetString': PyErr_SetString,
     'PyErr_Format': PyErr_Format, 'PyErr_SetObject': PyErr_SetObject, 'PyErr_SetNone': PyErr_SetNone,
     'PyErr_NoMemory': PyErr_NoMemory, 'PyErr_ExceptionMatches': PyErr_ExceptionMatches,
+    'PyErr_Fetch': PyErr_Fetch, 'PyErr_Restore': PyErr_Restore,
     'PyLong_AsLongLong': PyLong_AsLongLong, 'PyLong_AsLong': PyLong_AsLong,
     'PyLong_AsSsize_t': PyLong_AsSsize_t, 'PyLong_AsUnsignedLongLong': PyLong_AsUnsignedLongLong,
     'PyLong_AsUnsignedLongLongMask': PyLong_AsUnsignedLongLongMask, '_PyLong_Sign': _PyLong_Sign,
